@@ -291,8 +291,13 @@ def setitem(it, obj, idx, val, node):
             if slot is None:
                 obj.slots[idx] = Slot(g, val)
             else:
-                obj.slots[idx] = Slot(z3.simplify(z3.Or(g, z_bool(slot.present))),
-                                      ite(g, val, slot.value) if slot.value is not None else val)
+                try:
+                    newval = ite(g, val, slot.value) if slot.value is not None else val
+                except Unsupported:
+                    from vc.pyvc.values import Mixed
+                    old = slot.value.alts if isinstance(slot.value, Mixed) else [(True, slot.value)]
+                    newval = Mixed([(g, val)] + [(z_and(z3.Not(g), og), ov) for og, ov in old])
+                obj.slots[idx] = Slot(z3.simplify(z3.Or(g, z_bool(slot.present))), newval)
         return
     if isinstance(obj, MDict):
         local = len(ctx.generic) <= obj.depth and len(ctx.preds) <= obj.pdepth
@@ -634,6 +639,10 @@ def binop(it, op, a, b, node):
         if isinstance(op, ast.Add):
             return SV('zstr', z3.Concat(lift(a, 'zstr').z, lift(b, 'zstr').z))
     if isinstance(op, ast.Add) and (isinstance(a, SV) or isinstance(b, SV)):
+        if isinstance(a, str) and a == '' and b.kind == 'str' and b.none is None:
+            return b             # '' + s == s
+        if isinstance(b, str) and b == '' and a.kind == 'str' and a.none is None:
+            return a
         return opaque_str('concat', [a, b])
     raise Unsupported(f'binary {type(op).__name__} on {type(a).__name__}/{type(b).__name__}')
 
@@ -839,6 +848,9 @@ def meta_empty(v: SV):
 
 
 def contains(it, container, x, node):
+    if isinstance(container, SOptRec):
+        it.safety_check(z_bool(container.present), TypeError, node, "argument of type 'NoneType' is not iterable")
+        container = container.rec
     if isinstance(container, SRec):
         if is_sym(x):
             raise Unsupported('symbolic key membership in record')
@@ -1781,6 +1793,33 @@ def rec_copy(it, rec, args, kw, node):
     return rec.copy()
 
 
+@method('SRec', 'update')
+def rec_update(it, rec, args, kw, node):
+    src = args[0] if args else None
+    if isinstance(src, SRec):
+        for k, s in src.slots.items():
+            if s.present is False:
+                continue
+            if s.present is True or z3.is_true(z3.simplify(z_bool(s.present))):
+                setitem(it, rec, k, s.value, node)
+                continue
+            it.ctx.preds.append(z_bool(s.present))
+            try:
+                setitem(it, rec, k, s.value, node)
+            finally:
+                it.ctx.preds.pop()
+    elif isinstance(src, I.MDict) and src.is_concrete():
+        for k, v in src.d.items():
+            setitem(it, rec, k, v, node)
+    elif isinstance(src, dict):
+        for k, v in src.items():
+            setitem(it, rec, k, I.from_native(v), node)
+    elif src is not None:
+        raise Unsupported(f'record update from {type(src).__name__}')
+    for k, v in kw.items():
+        setitem(it, rec, k, v, node)
+
+
 @method('MList', 'append')
 def ml_append(it, lst, args, kw, node):
     it.list_append(lst, args[0])
@@ -2049,6 +2088,10 @@ def str_split(it, s, args, kw, node):
             return h(s, args, node)
         raise Unsupported('split of theory string')
     it.require_not_none(s, node, 'NoneType has no attribute split')
+    if not args:
+        toks = JOINED.get(s.z.get_id())
+        if toks is not None:
+            return toks          # A-SPLIT: (' '.join(ts)).split() == ts for non-empty whitespace-free tokens
     return SplitResult(s, tuple(to_native(a) for a in args))
 
 
@@ -2136,6 +2179,9 @@ def str_join(it, sep: str, src, node):
             return it.concat_str(parts)
         if all(isinstance(x, (str, SV)) for x in items):
             return JoinedTokens(sep, [x for x in items])
+    if isinstance(src, SplitResult) and sep == ' ' and not src.args:
+        # ' '.join(s.split()): whitespace normalisation, a function of s
+        return SV('str', uf('str_wsnorm', UStr, UStr)(src.s.z))
     if isinstance(src, (SeqBase, SSorted)):
         return JoinedTokens(sep, src)
     raise Unsupported(f'join over {type(src).__name__}')
@@ -2150,6 +2196,13 @@ class JoinedTokens(SV):
         super().__init__('str', z3.Const(fresh_name('joined'), UStr))
         self.sep = sep
         self.tokens = tokens
+        if sep == ' ':
+            JOINED[self.z.get_id()] = tokens
+            JOINED_TERMS.append((self.z, tokens))
+
+
+JOINED: dict = {}       # z3 term id of ' '.join(tokens) -> tokens
+JOINED_TERMS: list = []
 
 
 @method('Seq', 'fetchall')
